@@ -5,6 +5,7 @@ import (
 	"sort"
 	"strings"
 	"testing"
+	"unicode"
 	"unicode/utf8"
 
 	"pgregory.net/rapid"
@@ -26,7 +27,27 @@ const c02Rule = "strings of 0..200 printable runes (ASCII / Latin-1 / BMP incl. 
 
 var metaVars = []string{"convert-meta", "input-meta", "output-meta", "enable-meta-key", "meta-flag", "byte-oriented"}
 
+// genPrintableRune draws a printable rune of the class; code points of the
+// ranges that are unassigned or not printable are replaced by a fixed printable
+// one of the same class, so the domain is exactly "printable".
 func genPrintableRune(class int) *rapid.Generator[rune] {
+	fallback := []rune{'a', 0xe9, 0x4e00, 0x1f600}
+
+	return rapid.Custom(func(t *rapid.T) rune {
+		r := genRuneOfClass(class).Draw(t, "rune")
+		if !unicode.IsPrint(r) {
+			if class < 0 || class > 3 {
+				return fallback[3]
+			}
+
+			return fallback[class]
+		}
+
+		return r
+	})
+}
+
+func genRuneOfClass(class int) *rapid.Generator[rune] {
 	switch class {
 	case 0:
 		return rapid.Custom(func(t *rapid.T) rune { return rune(rapid.IntRange(0x20, 0x7e).Draw(t, "ascii")) })
